@@ -3,7 +3,7 @@
 From Coq Require Import String.
 From V.Lib Require Import Base Hex.
 From V.Gen Require Import C10Consts.
-From V.C10 Require Import Model Spec Corr Wf PF4 PCs PCont PTop PRegroup PB32a PB32b PB58 PCompl PTop2 PSort Bridge.
+From V.C10 Require Import Model Spec Corr Wf PF4 PCs PCont PTop PRegroup PB32a PB32b PB58 PCompl PTop2 PSort PConv Bridge.
 From Coq Require Import List.
 Local Open Scope N_scope.
 
@@ -230,6 +230,31 @@ Theorem C10_parse_injective :
   forall H G, (forall i l x, is_bytes (H i l x) = true) -> (forall i j x, is_bytes (G i j x) = true) ->
   forall s1 s2 a, parse_address H G s1 = Ok a -> parse_address H G s2 = Ok a -> trim s1 = trim s2.
 Proof. exact parse_injective. Qed.
+
+(** ** Network-checked conversion *)
+
+(** [convert_if_network]: accepted iff [spec_convertible]; the converter then sees the expected
+    network; otherwise IncorrectNetwork (expected, actual). Never a panic. *)
+Theorem C10_convert_decision :
+  forall a e, convert_if_network a e = if spec_convertible a e then Ok (with_net e a) else Err (e, addr_net a).
+Proof. exact convert_decision. Qed.
+Theorem C10_convert_total : forall a e, convert_if_network a e <> Panic.
+Proof. exact convert_total. Qed.
+(** [spec_convertible] is exactly: equal networks, or one of Sprout / P2PKH / P2SH (the kinds whose
+    encodings testnet and regtest share) with a testnet address expected on regtest. *)
+Theorem C10_convertible_iff :
+  forall a e, spec_convertible a e = true <->
+    addr_net a = e \/ (exists n k d, a = ARaw n k d /\ spec_shared k = true /\ n = Test /\ e = Regtest).
+Proof. exact convertible_iff. Qed.
+(** For an address as the constructors build it, what an accepted conversion hands on rebuilds to
+    the same address (same string); Sapling, TEX and unified addresses — distinct prefix per
+    network — are accepted on their own network only and handed on unchanged. *)
+Theorem C10_convert_canonical :
+  forall a e a', (match a with ARaw n k _ => norm_net k n = n | AUni _ _ => True end) ->
+    convert_if_network a e = Ok a' ->
+    spec_rebuild a' = a /\ addr_net a' = e /\
+    (match a with ARaw _ k _ => spec_shared k = false -> a' = a | AUni _ _ => a' = a end).
+Proof. exact convert_canonical. Qed.
 
 (** ** Bridge *)
 
